@@ -15,6 +15,7 @@ THEOREMS = [
     'OpenHTF.Exec.c01_records_only_appended',
     'OpenHTF.Exec.c01_declared_phases_accounted_partial',
     'OpenHTF.Exec.c01_pass_means_declared_phases_ran',
+    'OpenHTF.Exec.c01_declared_phases_accounted_runif',
     'OpenHTF.Exec.exec_term_last',
     'OpenHTF.Exec.runTest_ErrInv',
     'OpenHTF.Exec.runTest_LastTerm',
@@ -190,6 +191,6 @@ MANIFEST = {
             'trees; NoFalsePass (incl. execute() return value, executor crash, every declared phase accounted for) is '
             'evaluated by the Lean spec on the real observation.',
     'note': 'Trusted: Lean kernel + standard axioms; harness/exec_common.py; Lean driver. Pending as a theorem (checked on '
-            'every real run): accounted at full strength (phases below taken branches, in unfailed subtests, with a true run_if). Known finding: repeat_on_timeout leaves an ERROR record '
+            'every real run): accounted at full strength (phases below taken branches, in unfailed subtests; a run_if that was evaluated counts as accounted in c01_declared_phases_accounted_runif, the spec also asks that its last evaluation was false). Known finding: repeat_on_timeout leaves an ERROR record '
             'in a passing run. Model follows the tree after fix: commits 65d36842, 44bdff7b, 1e2b6e04.',
 }
